@@ -49,9 +49,42 @@ class Creators:
     if self._version is None:
       self.__check_line_queue_version(self._version_guess,
           "guessed from the lines of the queue")
-      self._version = self._version_guess
-    for i in range(0,len(self._line_queue)):
-      self.add_line(self._line_queue[i])
+      self.__decide_version(self._version_guess, None)
+    else:
+      for i in range(0,len(self._line_queue)):
+        self.add_line(self._line_queue[i])
+      self._line_queue = []
+
+  def __decide_version(self, version, explanation, gfa_line = None):
+    """
+    Set the version, deliver the lines of the queue and connect the line
+    which decided the version (if any): all or nothing. If one of the
+    lines is refused, the Gfa is left as it was while the version was unknown
+    (only comments and header data are stored before).
+    """
+    queue = self._line_queue
+    self._version = version
+    self._version_explanation = explanation
+    try:
+      for queued in queue:
+        self.add_line(queued)
+      if gfa_line is not None:
+        gfa_line.connect(self)
+    except:
+      for rt in list(self._records.keys()):
+        if rt not in ["H", "#"]:
+          records = self._records[rt]
+          if rt == "F":
+            records = dict([(id(f), f) for e in records.values() \
+                            for f in e.values()])
+          for line in list(records.values()):
+            if line.is_connected():
+              line.disconnect()
+      self._version = None
+      self._version_explanation = None
+      self._line_queue = queue
+      self._max_int_name = 0
+      raise
     self._line_queue = []
 
   def _register_line(self, gfa_line):
@@ -116,32 +149,25 @@ class Creators:
           raise gfapy.VersionError(
               "GFA specification version {} not supported".format(version))
         self.__check_line_queue_version(version, "specified in header VN tag")
+      self.header._check_single_definition_tags(gfa_line)
+      if version is not None:
+        self.__decide_version(version, "specified in header VN tag")
       self._n_input_header_lines += 1
       self.header._merge(gfa_line)
-      if version is not None:
-        self._version = version
-        self._version_explanation = "specified in header VN tag"
-        self.process_line_queue()
     elif rt == "S":
       if isinstance(gfa_line, str):
         gfa_line = gfapy.Line(gfa_line, vlevel=self._vlevel,
             dialect=self._dialect)
       explanation = "implied by: syntax of S {} line".format(gfa_line.name)
       self.__check_line_queue_version(gfa_line.version, explanation)
-      self._version = gfa_line.version
-      self._version_explanation = explanation
-      self.process_line_queue()
-      gfa_line.connect(self)
+      self.__decide_version(gfa_line.version, explanation, gfa_line)
     elif rt in ["E", "F", "G", "U", "O"]:
       explanation = "implied by: presence of a {} line".format(rt)
       if isinstance(gfa_line, str):
         gfa_line = gfapy.Line(gfa_line, vlevel=self._vlevel,
             version="gfa2", dialect=self._dialect)
       self.__check_line_queue_version("gfa2", explanation)
-      self._version = "gfa2"
-      self._version_explanation = explanation
-      self.process_line_queue()
-      gfa_line.connect(self)
+      self.__decide_version("gfa2", explanation, gfa_line)
     elif rt in ["L", "C", "P"]:
       self._version_guess = "gfa1"
       self._line_queue.append(gfa_line)
